@@ -201,6 +201,8 @@ class Gen:
              "ecb": self.cb(pool), "ccb": self.cb(pool), "bodies": self.bodies(pool)}
         if n and r.random() < p["bad_elems"] and (kind != "map" or s["marker"]):
             s["bad"] = sorted({r.randrange(n) for _ in range(r.choice([1, 1, 2, 3]))})
+        if n and kind != "map" and r.random() < 0.2:
+            s["empties"] = sorted({r.randrange(n) for _ in range(r.choice([1, 2]))})
         if r.random() < 0.1:
             s.pop("nc")
         if s["iter"] == "gen" and n and r.random() < p["inner_ops"]:
@@ -232,7 +234,7 @@ class Gen:
         pools = []
         for i in range(r.choice(p["npools"])):
             cls = r.choice(p["cls"])
-            ps = {"idx": i, "cls": cls, "size": r.choice(p["sizes"]), "name": r.choice([None, None, f"p{i}", "same"])}
+            ps = {"idx": i, "cls": cls, "size": r.choice(p["sizes"]), "name": r.choice([None, None, f"p{i}", "same", ""])}
             if p.get("size_track"):
                 ps["size_track"] = True
             pools.append(ps)
@@ -277,6 +279,8 @@ class Gen:
                 st = self.reject(pool)
             elif k == "ctor_neg":
                 st = {"op": "ctor_neg", "v": r.choice([-1, -2, -10]), "cls": pool["cls"]}
+            elif k == "grow_size":
+                st = {"op": "grow_size", "pool": pool["idx"], "by": r.choice([1, 1, 2, 3, None]), "twice": r.random() < 0.4}
             elif k == "set_size":
                 st = {"op": "set_size", "pool": pool["idx"], "v": r.choice([-2, -1, 0, 1, 2, 3, 5, None])}
             if st is not None:
